@@ -5,21 +5,21 @@ CLAIMED = {
     "C20": dict(
         text="Static analysis (clang AST + CFG dataflow) of Lattice and LatticePresets: validation of label/orbital/spin dominates storage for every factor, "
              "no lattice write can be followed by a rejection (exception summaries discharged at call sites), map look-ups dereferenced only on the found edge, "
-             "size guards of presets are not vacuous, preset argument checks dominate construction, storage by order and deep copy. All CFG paths, both build configurations.",
+             "size guards of presets are not vacuous, preset argument checks dominate construction, storage by order and deep copy; (R7) the extracted bodies of addSite / getSite evaluated on add/look-up histories over two labels (labels are only compared): look-up returns the site added last under the label, unknown labels fail. All CFG paths, both build configurations.",
         note="Necessary structural conditions; trusts clang's CFG, the skeleton extraction, std::map semantics. Does not decide that stored terms give the intended matrix (C04) nor allocation-failure safety.",
         technique="CFG must-dataflow of branch facts + dominance + exception summaries with call-site discharge (custom libTooling extractor, Python rule engine)",
         ref="DESIGN.md §3 C20"),
     "C18": dict(
         text="Static analysis of IndexClassification: in both ordering modes the loop nest that writes IndicesToInfo enumerates exactly {site} x [0,OrbitalSize) x [0,SpinSize) "
-             "(full-range loops, per-site filter only as the exact complement of the range test, no truncating break/return), one counter increment per write from 0, "
-             "table sized to the sum of sizes, inverse table filled over [0,IndexSize), getInfo/getIndex read under bound / found-edge; IndexInfo::operator< is lexicographic over (label hash, orbital, spin) — a derived/packed key is searched for collisions on a small domain and a collision is reported with its witness. All CFG paths.",
+             "(full-range loops, per-site filter only as the exact complement of the range test, no truncating break/return), one counter increment per write from 0 (a slot computed from the loop variables must be a mixed-radix layout: the stride of one variable is the range of the other), "
+             "table sized to the sum of sizes, inverse table filled over [0,IndexSize), getInfo/getIndex read under bound / found-edge; IndexInfo::operator< is decided by evaluating its extracted body on every pair of a small domain of (label hash, orbital, spin) triples (the comparator only compares and combines three members): irreflexive, total on distinct triples, antisymmetric, transitive; a counterexample is reported with its witness. All CFG paths.",
         note="Decides the bijection's structural necessary conditions; relabelling invariance of physics (relational, value level) is not decided. Collisions of the label hash itself are noted, not armed.",
         technique="loop-nest shape analysis + branch-fact must-dataflow over clang CFG (custom libTooling extractor)",
         ref="DESIGN.md §3 C18"),
     "C17": dict(
         text="Static analysis for the three UB classes the anchored mechanisms can exhibit: (R1) typestate of every Eigen sparse InnerIterator in the library (accessed only after its operator bool "
              "was tested since construction / last ++, with per-return-value summaries for functions taking iterators by reference); (R2) first/last-element access or address of a possibly empty "
-             "sequence, and every pointer handed to an MPI collective; (R3) coherence between a bounds guard and the exclusive extent of what it protects. All CFG paths, both build configurations.",
+             "sequence, and every pointer handed to an MPI collective; (R3) coherence between a bounds guard and the exclusive extent of what it protects; (R4) ownership: storage freed by a destructor is not shared with a copy of the object — a user-provided copy constructor must not take over the original's pointers (member-wise or element-wise), a class with a compiler-generated copy constructor and a freeing destructor must not be copied anywhere in the analysed code. All CFG paths, both build configurations.",
         note="Not a proof of absence of UB: arithmetic overflow, use before prepare/compute, pointer lifetimes and UB outside these mechanisms are not decided. Trusts Eigen/libstdc++ semantics; one class-invariant assumption listed in checks/c17.py.",
         technique="typestate must-dataflow over clang CFG with interprocedural summaries + guard/extent entailment (difference-bound closure)",
         ref="DESIGN.md §3 C17"),
@@ -43,7 +43,7 @@ CLAIMED = {
         text="Static analysis of the symmetry analysis: (R1) on every CFG path through the classification loop each Fock state gets exactly one StateBlockIndex entry and one StatesContainer entry with the same block, new blocks "
              "are registered in both maps before the counter advances; (R2) (block, position) addresses round-trip; (R3) an integral of motion is stored only after it commuted with H and with every n_i (full loop, failing edge "
              "returns false); (R4) every throw reachable from Symmetrizer::compute / StatesClassification::compute is excluded at its call site (exception summaries, parameter substitution, entailment); (R5) the three "
-             "FieldOperator::prepare siblings build parts and block maps identically.",
+             "FieldOperator::prepare siblings build parts and block maps identically; (R6) blocks are keyed by QuantumNumbers whose identity is a hash: it is recomputed from the whole ordered vector after every change of the numbers, and <, ==, != compare the hashes of the two objects.",
         note="Necessary conditions only: that accepted integrals of motion make H block diagonal and operators single-target is a value-level fact and is not decided; two hazards (mapsTo first-state rule, hash-compared quantum numbers) are documented, not armed. Virtual calls summarised through the static callee.",
         technique="CFG path enumeration with pairing rule + exception summaries discharged by branch-fact entailment + sibling-structure comparison",
         ref="DESIGN.md §3 C07"),
@@ -51,7 +51,7 @@ CLAIMED = {
         text="Structural necessary conditions of the dispatch protocol, decided on all CFG paths: an order is send(Work, job) + DispatchMap[job]=worker + irecv(worker, Pending) in that worker's slot, one job and one worker popped per order "
              "under both stacks non-empty; the worker re-posts its receive after every completed one, cancels it iff Finish, reports completion with send(boss, Pending) and resets its state, and its members are initialised before the "
              "receive captures them; Finish is sent only when no job is queued and all workers are idle, once per worker; completed workers are re-queued; root/non-root arms disseminating the job map match; the dispatch loop is "
-             "collective-free; the std::sort comparator is strict.",
+             "collective-free; the std::sort comparator is strict; (R7) MPIMaster::is_finished, evaluated from its extracted body on every pattern of the per-worker `Finish sent` flags (pools of 1..3 workers, stacks empty and non-empty), is true exactly when Finish went to every worker.",
         note="The property itself (exactly-once and termination for every interleaving and across rounds) quantifies over schedules and is NOT decided: that needs model checking of the protocol, a different technique family. Trusts Boost.MPI request semantics.",
         technique="pairing / dominance / typestate rules over clang AST+CFG with branch-fact dataflow; SPMD arm matching",
         ref="DESIGN.md §3 C16"),
@@ -85,16 +85,16 @@ CLAIMED = {
         technique="sympy normal forms over index-space typed atoms + loop-shape / phase-ordering dominance rules",
         ref="DESIGN.md §3 C09"),
     "C19": dict(
-        text="Structural clauses of truncation, on all CFG paths: at the four part-creation sites (G, susceptibility, two-particle G, ensemble average) the guard is exactly the disjunction of isRetained over the blocks whose "
-             "density-matrix parts the part uses (so a part is skipped only if ALL its blocks are discarded); a block's flag is reset and set true iff some weight exceeds the tolerance, scanning all states; truncateBlocks visits every block; "
-             "isRetained(b) reads block b.",
+        text="Structural clauses of truncation, on all CFG paths: at the part-creation sites of G, the susceptibility and the ensemble average every path through one iteration of the stripe loop that skips the part has tested isRetained false for ALL blocks whose density-matrix parts the part uses, and the stripe loop is not left early under a retention test; "
+             "for the two-particle function the body of the stripe loop is evaluated for all 16 retention patterns of a matching stripe (booleans only): the part is created iff some used block is retained; DensityMatrixPart::truncate is evaluated on every weight vector of up to 3 states below / at / above the tolerance and both prior flag values: "
+             "retained whenever some weight exceeds the tolerance; truncateBlocks visits every block; isRetained(b) reads block b.",
         note="The eps-proportional error bound (e.g. 2*eps*dim/|Im z|) is numeric and is NOT decided.",
-        technique="guard-set vs use-set comparison under branch-fact canonicalisation; loop-shape rules",
+        technique="path enumeration with branch facts (guard-set vs use-set per skipping path) + exhaustive evaluation of the extracted guard / flag code over its finite truth tables; loop-shape rules",
         ref="DESIGN.md §3 C19"),
     "C15": dict(
         text="Static reader/writer agreement of MatsubaraContainer4: the affine index map extracted from fill() composed with the one extracted from operator() is the identity on (n1,n2,n3) for every window size N "
              "(sympy, symbolic in N, same FermionicIndexOffset[B] on both sides); every subscript in the reader is dominated by 0 <= B <= 4N-2 and 0 <= a < rows, 0 <= b < cols (linear entailment against the extents fill() resizes to), "
-             "the writer's loops stay inside those extents, N == 0 is special-cased; every miss returns pSource->value(n1,n2,n3); Vertex4::value == chi + [n1=n3] beta G13 G24 - [n2=n3] beta G14 G23; operator() reads the storage filled from value().",
+             "the writer's loops stay inside those extents, N == 0 is special-cased; every miss returns pSource->value(n1,n2,n3); (R5) the pointer that fallback dereferences is bound for every window size: fill() stores it before every return incl. the empty-window one, and Vertex4::compute reaches fill(this, N) on every path that sets Status = Computed; Vertex4::value == chi + [n1=n3] beta G13 G24 - [n2=n3] beta G14 G23; operator() reads the storage filled from value().",
         note="Decides transparency structurally for every frequency triple and window size; numerical equality of stored and recomputed values and the caller's choice of G13..G23 are not decided.",
         technique="extraction and symbolic composition of affine index maps (sympy) + linear-arithmetic entailment of bounds over CFG branch facts",
         ref="DESIGN.md §3 C15"),
@@ -103,7 +103,7 @@ CLAIMED = {
              "(Ej-Ei, Ek-Ej, El-Ek) with the right flags; both term classes evaluate to the documented rational forms incl. the delta branch decided on z1+z2-P1-P2 resp. z2+z3-P2-P3; in TwoParticleGFPart::compute the matrix element is "
              "O1(1,2)O2(2,3)O3(3,4)CX4(4,1)*sign and energies/weights of states 1..4 come from their own blocks (index-space typing of four sparse iterators, reaching-definition inlining); permutations3 is the six permutations with parity; "
              "the part is evaluated at (z1,z2,-z3)[perm]; prepare selects operators by perm[k] and closes the block chain; the frequency-table path accumulates exactly the call the on-demand path sums, compute before evaluation before purge; "
-             "merging of like terms (operator+=) averages the poles with the weights held before the merge and adds weights and coefficients.",
+             "merging of like terms (operator+=) averages the poles with the weights held before the merge and adds weights and coefficients (decided by evaluating the extracted operator+= on two symbolic terms, however the arithmetic is written); tolerances set on the container / function reach the parts under their own names; prepare/compute are idempotent under their status guards.",
         note="Equality with the triple Fourier integral and behaviour for numerically near-degenerate levels (runtime resonance decision) are not decided. The multi-term table is transcribed from the header documentation.",
         technique="sympy normal forms over index-space typed atoms, symbolic environment (reaching definitions), constant-table evaluation, switch/loop structure rules",
         ref="DESIGN.md §3 C02"),
@@ -111,7 +111,7 @@ CLAIMED = {
         text="Static structure of the eigenbasis field operators in both build configurations: FieldOperatorPart::compute fills LeftMat(n,k) = conj(U_to(l,n)) (conj present iff complex build) and RightMat(k,m) = sign*U_from(k,m) with l the inner "
              "position of the image O|K>, k of K, over all eigenstates, stores (LeftMat*RightMat).sparseView in both storage orders with pruning tolerance <= 1e-8, HFrom/HTo bound correctly; the container shortcut assigns to the c part "
              "whose right block is the left block of the c+ entry the ADJOINT (not transpose) of the c+ part's other-major matrix and sets both statuses after computing c+; index-space consistency (eigen vs Fock) wherever eigenvectors are read; "
-             "CreationOperator/AnnihilationOperator::prepare create exactly one part for every right block whose image block exists (guarded by isCorrect() and nothing else).",
+             "CreationOperator/AnnihilationOperator::prepare create exactly one part for every right block whose image block exists (guarded by isCorrect() and nothing else); (R5) look-ups of a part by its left / right block (block number or quantum numbers, incl. the bimap views) use the map of their own side.",
         note="That the back-transformation gives the Jordan-Wigner matrix and that the CAR hold when assembled over blocks are value-level statements and are not decided; degenerate eigenvectors are Eigen's business.",
         technique="sympy comparison of element formulas per build configuration + key matching of the adjoint shortcut + index-space role typing",
         ref="DESIGN.md §3 C10"),
